@@ -338,15 +338,11 @@ func controllingConds(b *ssa.BasicBlock) []Atom {
 		}
 		// cur is controlled by id's branch if exactly one successor of id dominates/reaches cur exclusively
 		s0, s1 := id.Succs[0], id.Succs[1]
-		d0 := s0 == cur || s0.Dominates(cur)
-		d1 := s1 == cur || s1.Dominates(cur)
-		// a successor "s" being cur itself only counts if cur has the single pred id
-		if s0 == cur && len(cur.Preds) != 1 {
-			d0 = false
+		// the edge id->s controls cur if s is reached only through that edge and dominates cur
+		ctl := func(s *ssa.BasicBlock) bool {
+			return len(s.Preds) == 1 && s.Preds[0] == id && (s == cur || s.Dominates(cur))
 		}
-		if s1 == cur && len(cur.Preds) != 1 {
-			d1 = false
-		}
+		d0, d1 := ctl(s0), ctl(s1)
 		if d0 && !d1 {
 			out = append(out, Atom{Fn: fn, V: iff.Cond, Want: True})
 		} else if d1 && !d0 {
